@@ -5,7 +5,8 @@ from concurrent.futures import ThreadPoolExecutor
 
 import common as C
 
-COMPOSITIONS = ["pipeline", "column_transformer", "feature_union", "grid_search", "voting", "stacking", "bagging", "function_transformer",
+COMPOSITIONS = ["scipy_ufunc_transformer", "random_state_instance", "scipy_ufunc_transformer", "random_state_instance",
+                "pipeline", "column_transformer", "feature_union", "grid_search", "voting", "stacking", "bagging", "function_transformer",
                 "class_weight_dict"]
 # always part of the quick subset: one estimator per reassembly mechanism / payload kind
 ANCHORS = ["DecisionTreeClassifier", "RandomForestRegressor", "KNeighborsClassifier", "SGDClassifier", "HistGradientBoostingClassifier",
